@@ -32,6 +32,12 @@ CHECKS["C08"] = {
     "technique": "symbolic execution (CrossHair/z3) of the real store classes over a file-system model, lock step against a dictionary model; path pairs chosen by the solver",
 }
 
+CHECKS["C06"] = {
+    "text": "Crash points as solver variables: the real _api / LocalFileStore / codec code runs over a POSIX file-system model (validated differentially against the OS on every run); the index of the mutating file-system operation at which the process is killed and the torn-write length are symbolic ints, blob contents symbolic strings. For every crash point of two scenarios (cold nested evaluation incl. store creation; re-keep of changed code over a committed store) a fresh recovery process must load old-or-new complete values, evaluate to the plain values, and heal (second evaluation executes nothing). Exhaustive over all operation boundaries of the scenarios within the stated torn-length bound; counterexamples are replayed on the real OS by killing a child process at the same operation.",
+    "design_ref": "DESIGN.md 5-C06",
+    "technique": "symbolic execution (CrossHair/z3) of the real evaluation + local store over a file-system model with a symbolic crash index and torn-write length; real-OS replay by os._exit in a child",
+}
+
 NOT_APPLICABLE = {}
 
 
